@@ -114,6 +114,10 @@ func newC01Inst(name, strategy, basePath string, reqID, trace bool) (*c01Inst, e
 	case "timeouts":
 		// every timeout configured, generously: the exchange never reaches one, so nothing may change
 		cfg.Server.Timeouts = config.TimeoutConfig{Read: 30, Write: 30, Idle: 30, Handler: 30, Shutdown: 5, BackendDial: 5, BackendRead: 30, BackendIdle: 30}
+	case "active", "active:/base":
+		// active health checks in the background (every backend has been probed at least once
+		// before the first exchange): probing is about health, routing is untouched by it
+		cfg.HealthChecks.Active = config.ActiveHealthCheckConfig{Enabled: true, Interval: 3600, Timeout: 5, Path: wire.ProbePath}
 	case "plugins":
 		// plugins that do not transform: logging, and size_limit with limits far above every shape
 		cfg.Plugins = config.PluginsConfig{Enabled: true, Chain: []config.PluginConfig{{Name: "logging"}, sizeLimitCfg(1<<30, 1<<30)}}
@@ -121,6 +125,14 @@ func newC01Inst(name, strategy, basePath string, reqID, trace bool) (*c01Inst, e
 	h, err := startHelios(cfg)
 	if err != nil {
 		return nil, err
+	}
+	if strings.HasPrefix(name, "active") {
+		for i := 0; i < 500 && be.ProbeCount() == 0; i++ {
+			time.Sleep(10 * time.Millisecond)
+		}
+		if be.ProbeCount() == 0 {
+			return nil, fmt.Errorf("the backend was not probed within 5 s")
+		}
 	}
 	if strings.HasPrefix(name, "rebase:") {
 		// the backend's registration has a history: it was first registered (and served a request)
@@ -529,9 +541,9 @@ func TestVerifC01(t *testing.T) {
 			x.NoCType = true
 			jobs = append(jobs, job{"round_robin", x})
 		}
-		for _, inst := range []string{"base:/base", "base:/base/", "rebase:/v2", "rebase:+renamed", "rebase:/v2/+renamed", "least_connections", "weighted_round_robin", "ip_hash", "ip_hash_consistent", "ids:req", "ids:trace", "ids:both"} {
+		for _, inst := range []string{"active", "active:/base", "base:/base", "base:/base/", "rebase:/v2", "rebase:+renamed", "rebase:/v2/+renamed", "least_connections", "weighted_round_robin", "ip_hash", "ip_hash_consistent", "ids:req", "ids:trace", "ids:both"} {
 			targets := []string{"/r"}
-			if strings.HasPrefix(inst, "base:") || strings.HasPrefix(inst, "rebase:") {
+			if strings.HasPrefix(inst, "base:") || strings.HasPrefix(inst, "rebase:") || strings.HasPrefix(inst, "active") {
 				targets = []string{"/", "/a/b", "/a%2Fb", "/hello!/it's(me)?q=%26", "/a/./b/../c", "/x%20y/"}
 			}
 			for _, tg := range targets {
@@ -561,6 +573,8 @@ func TestVerifC01(t *testing.T) {
 			in, err = newC01Inst(name, "round_robin", strings.TrimPrefix(name, "base:"), false, false)
 		case strings.HasPrefix(name, "rebase:"):
 			in, err = newC01Inst(name, "round_robin", "", false, false)
+		case strings.HasPrefix(name, "active"):
+			in, err = newC01Inst(name, "round_robin", strings.TrimPrefix(strings.TrimPrefix(name, "active"), ":"), false, false)
 		case name == "ids:req":
 			in, err = newC01Inst(name, "round_robin", "", true, false)
 		case name == "ids:trace":
